@@ -9,6 +9,33 @@ use std::path::{Path, PathBuf};
 pub use rand::rngs::StdRng;
 pub use rand::{Rng, SeedableRng};
 
+pub static HEARTBEAT: std::sync::atomic::AtomicU64 = std::sync::atomic::AtomicU64::new(0);
+pub static CURRENT_CASE: std::sync::Mutex<String> = std::sync::Mutex::new(String::new());
+
+/// A hang inside a call of the library under test cannot be caught in-process: a watchdog thread
+/// notices that no event was logged for `secs` seconds, records the case that was running and exits 3.
+pub fn start_watchdog(dir: PathBuf, secs: u64) {
+    std::thread::spawn(move || {
+        let mut last = 0;
+        let mut still = 0;
+        loop {
+            std::thread::sleep(std::time::Duration::from_secs(2));
+            let now = HEARTBEAT.load(std::sync::atomic::Ordering::Relaxed);
+            if now == last {
+                still += 2;
+            } else {
+                still = 0;
+                last = now;
+            }
+            if still >= secs {
+                let case = CURRENT_CASE.lock().map(|c| c.clone()).unwrap_or_default();
+                let _ = std::fs::write(dir.join("hang.json"), format!("{{\"hang\":true,\"no_progress_s\":{},\"case\":{}}}\n", still, if case.is_empty() { "null".to_string() } else { case }));
+                std::process::exit(3);
+            }
+        }
+    });
+}
+
 pub struct Tracer {
     dir: PathBuf,
     shards: Vec<BufWriter<File>>,
@@ -67,6 +94,9 @@ impl Tracer {
         }
         v["id"] = json!(id);
         v["prop"] = json!(self.prop);
+        if let Ok(mut c) = CURRENT_CASE.lock() {
+            *c = v.to_string();
+        }
         self.sample_open = self.samples.len() < 3;
         if self.sample_open {
             self.samples.push(vec![]);
@@ -75,6 +105,7 @@ impl Tracer {
     }
 
     pub fn ev(&mut self, v: Value) {
+        HEARTBEAT.fetch_add(1, std::sync::atomic::Ordering::Relaxed);
         if self.muted {
             return;
         }
